@@ -149,6 +149,23 @@ fn const_ident_cases(ws: &[u32], out: &mut Vec<Case>) {
     }
 }
 
+/// A const used as width after another declaration of the same name came and went in an inner
+/// scope: the width is the one of the const that is visible at the use.
+fn shadowed_const_cases(out: &mut Vec<Case>) {
+    for w in [1u32, 8, 32, 64] {
+        for ct in ["int", "uint[64]", "int[128]"] {
+            for inner in ["const int n = {};", "const int[128] n = {};", "const uint n = {};", "const float n = 2.5;", "int n = {};", "bit n;"] {
+                let inner = inner.replace("{}", &(w + 8).to_string());
+                for (sname, pre, post) in [("if", "if (true) { ", " }"), ("else", "if (true) { } else { ", " }"), ("for", "for int i in [0:1] { ", " }"), ("while", "while (true) { ", " }"), ("case", "switch (1) { case 1 { ", " } }"), ("def", "def f() { ", " }")] {
+                    for (decl, ty) in [("int[n] x;", Type::Int(Some(w), IsConst::False)), ("bit[n] x;", Type::BitArray(ArrayDims::D1(w as usize), IsConst::False)), ("qubit[n] x;", Type::QubitArray(ArrayDims::D1(w as usize)))] {
+                        out.push(Case { text: format!("const {} n = {}; {}{}{} {}", ct, w, pre, inner, post, decl), tag: format!("shadowed-const/{}/{}", sname, ct), expect: vec![("x".into(), ty)], bad_width: None, gates: None, def_ret: None, nontrivial: true });
+                    }
+                }
+            }
+        }
+    }
+}
+
 fn bad_cases(out: &mut Vec<Case>) {
     // (designator prelude, designator text, widths that must not be recorded)
     let big: [u64; 6] = [4294967296, 4294967297, 4294967296 + 32, 8589934592, 8589934593, 1 << 40];
@@ -409,12 +426,15 @@ pub fn spaces(tier: Tier, _seed: u64) -> Vec<Box<dyn Space>> {
     const_ident_cases(&cws, &mut cw);
     let mut bad = Vec::new();
     bad_cases(&mut bad);
+    let mut shadowed = Vec::new();
+    shadowed_const_cases(&mut shadowed);
     let mut sig = Vec::new();
     signature_cases(&mut sig);
     vec![
         Box::new(Decls { family: "scalar", cases: scalar }),
         Box::new(Decls { family: "const-width", cases: cw }),
         Box::new(Decls { family: "bad-width", cases: bad }),
+        Box::new(Decls { family: "shadowed-const", cases: shadowed }),
         Box::new(Decls { family: "signatures", cases: sig }),
     ]
 }
